@@ -693,7 +693,11 @@ def refine_droplet(
     # normalize the droplet position
     grid = phase_field.grid
     coords = grid.transform(droplet.position, "cartesian", "grid")
-    droplet.position = grid.transform(grid.normalize_point(coords), "grid", "cartesian")
+    position = grid.transform(grid.normalize_point(coords), "grid", "cartesian")
+    # coordinates that are fixed by the symmetry of the grid are left untouched
+    fixed = [i for i in grid.coordinate_constraints if i < grid.dim]
+    position[fixed] = droplet.position[fixed]
+    droplet.position = position
 
     return droplet
 
